@@ -1,5 +1,6 @@
 """C01 -- sum-product of a non-recursive FGG equals its definition."""
 import random, json, warnings
+from fractions import Fraction
 from harness.core import *
 from harness import gen
 from harness.props._sp_util import *
@@ -18,14 +19,27 @@ ASSUMPTIONS = [
 ]
 METHODS = ["fixed-point", "newton", "linear"]
 
-def run_impl(spec, sr, method, ids="explicit", rng=None, via="sum_products", patterned=False, staged=False):
-    """returns {nonterminal index: flat list of observations}"""
+def run_impl(spec, sr, method, ids="explicit", rng=None, via="sum_products", patterned=False, staged=False, history=None):
+    """returns {nonterminal index: flat list of observations}.
+    history: None, or a dict {terminal: other weights of the same shape}: the grammar is first built with THOSE
+    weights and queried; then every factor's weights are replaced in place (FiniteFactor.weights setter on the
+    same factor object) by the weights of `spec`, and the same FGG object
+    is queried again -- the second answer is the one observed."""
     import fggs
     def stage(g):
         with warnings.catch_warnings():
             warnings.simplefilter("ignore")
             fggs.sum_products(g, method=method, semiring=sr.semiring())
-    b = gen.build_fgg(spec, sr.wconv, ids=ids, rng=rng, dtype=sr.torch_dtype(), patterned=patterned, stage=stage if staged else None)
+    first = dict(spec, weights=history) if history else spec
+    b = gen.build_fgg(first, sr.wconv, ids=ids, rng=rng, dtype=sr.torch_dtype(), patterned=patterned, stage=stage if staged else None)
+    if history:
+        stage(b.fgg)
+        for k, el in enumerate(sorted(spec["weights"])):
+            t = gen.weight_tensor(spec, el, sr.wconv, sr.torch_dtype())
+            if patterned == "zero_default":
+                from fggs.indices import PatternedTensor
+                t = PatternedTensor(t, default=sr.wconv(Fraction(0)))
+            b.factors[el].weights = t
     with warnings.catch_warnings():
         warnings.simplefilter("ignore")
         res = fggs.sum_products(b.fgg, method=method, semiring=sr.semiring())
@@ -61,7 +75,7 @@ def run_singleton(spec, sr, method):
         fg.add_edge(fggs.Edge(els[el], [nodes[i] for i in att]))
     fg.ext = [nodes[i] for i in r["ext"]]
     for el, lab in els.items():
-        w = torch.tensor(gen.nested_map(spec["weights"][el], sr.wconv), dtype=sr.torch_dtype())
+        w = gen.weight_tensor(spec, el, sr.wconv, sr.torch_dtype())
         fg.add_factor(lab, fggs.FiniteFactor([fg.domains[nl.name] for nl in lab.type], w))
     g = singleton_fgg(fg)
     with warnings.catch_warnings():
@@ -69,10 +83,10 @@ def run_singleton(spec, sr, method):
         z = fggs.sum_product(g, method=method, semiring=sr.semiring())
     return {0: [sr.obs(x) for x in dense_list(z)]}
 
-def singleton_spec(rng):
+def singleton_spec(rng, p_empty=0.0):
     """one start nonterminal, one rule with terminal edges only (a factor graph)"""
     while True:
-        spec = gen.random_spec(rng, recursive=False, max_nt=1, max_rules=1, max_nodes=4, max_edges=4, dup_ext=False)
+        spec = gen.random_spec(rng, recursive=False, max_nt=1, max_rules=1, max_nodes=4, max_edges=4, dup_ext=False, p_empty=p_empty)
         if len(spec["rules"]) == 1 and all(spec["elabels"][el]["term"] for el, _ in spec["rules"][0]["edges"]):
             used = {el for el, _ in spec["rules"][0]["edges"]}
             # labels that the factor graph never mentions do not exist in singleton_fgg's grammar
@@ -117,10 +131,45 @@ def run(tier, seed):
                 continue
             obs = sorted(out.items())
             bycf[sr.carrier()].append((gw, weights_wire(spec, sr), obs))
-            meta[sr.carrier()].append((spec, sr, method, obs))
+            meta[sr.carrier()].append((spec, sr, method, obs, None))
+    # size-0 domains in every role (attached / unattached, internal / external node; the only label or one of two),
+    # and layered grammars whose nonterminal values are built from the factors their parents use again
+    n_empty = 45 if tier == "quick" else 2500
+    n_layer = 140 if tier == "quick" else 8000
+    PAT = [False, "zero_default", "zero_default", True]
+    extra = [("empty", gen.random_spec(rng, recursive=False, p_empty=1.0)) for _ in range(n_empty)]
+    extra += [("layered", gen.layered_spec(rng, p_empty=0.12)) for _ in range(n_layer)]
+    for i, (kind, spec) in enumerate(extra):
+        key = json.dumps(gen.spec_jsonable(spec), sort_keys=True)
+        distinct.add(key)
+        for f in spec["features"]: feats[f] = feats.get(f, 0) + 1
+        gw = grammar_wire(spec)
+        hist = None
+        if i % 3 == 1:     # same object queried, all weights replaced in place, queried again
+            hist = {el: gen.nested([spec["nlabels"][nl] for nl in spec["elabels"][el]["type"]],
+                                   lambda: rng.choices(gen.LAYER_GRID, gen.LAYER_GRID_P)[0]) for el in spec["weights"]}
+            feats["history_weights_replaced"] = feats.get("history_weights_replaced", 0) + 1
+        for sr in CONFIGS:
+            method = METHODS[(i + len(sr.name)) % 3]
+            ids = ["explicit", "implicit", "mixed"][i % 3]
+            patterned = PAT[i % 4]
+            opts = dict(ids=ids, patterned=patterned, staged=(i % 5 == 2), history=gen.spec_jsonable(dict(spec, weights=hist))["weights"] if hist else None)
+            case = dict(spec=gen.spec_jsonable(spec), semiring=repr(sr), method=method, stream=kind, build=opts)
+            call = "fggs.sum_products(fgg, method=%r, semiring=%r)" % (method, sr)
+            try:
+                out = run_impl(spec, sr, method, ids=ids, rng=rng, via="both", patterned=patterned, staged=(i % 5 == 2), history=hist)
+            except Exception as e:
+                violations.append(Violation("sum_products raised %r" % (e,), case=case,
+                                            call=call, corr="corr:sum_products", oracle="no exception expected on a well-formed non-recursive FGG"))
+                continue
+            obs = sorted(out.items())
+            bycf[sr.carrier()].append((gw, weights_wire(spec, sr), obs))
+            meta[sr.carrier()].append((spec, sr, method, obs, case))
     # factor graphs through singleton_fgg
     for i in range(n // 4):
-        spec = singleton_spec(rng)
+        spec = singleton_spec(rng, p_empty=0.3)
+        for f in spec["features"]:
+            if "empty" in f: feats["singleton:" + f] = feats.get("singleton:" + f, 0) + 1
         gw = grammar_wire(spec)
         for sr in CONFIGS:
             method = METHODS[(i + len(sr.name)) % 3]
@@ -132,16 +181,16 @@ def run(tier, seed):
                 continue
             obs = sorted(out.items())
             bycf[sr.carrier()].append((gw, weights_wire(spec, sr), obs))
-            meta[sr.carrier()].append((spec, sr, method + " via singleton_fgg", obs))
+            meta[sr.carrier()].append((spec, sr, method + " via singleton_fgg", obs, None))
     total = 0
     nk = 0
     for k, vals in bycf.items():
         codes, n_k = run_model(CF[k], vals, seed=seed, coq_sample=12 if tier == "quick" else 60, tag="c01" + k)
         nk += n_k
         total += len(vals)
-        for (spec, sr, method, obs), c in zip(meta[k], codes):
+        for (spec, sr, method, obs, case), c in zip(meta[k], codes):
             if c == 0: continue
-            case = dict(spec=gen.spec_jsonable(spec), semiring=repr(sr), method=method)
+            case = case or dict(spec=gen.spec_jsonable(spec), semiring=repr(sr), method=method)
             call = "fggs.sum_products(fgg, method=%r, semiring=%r)" % (method, sr)
             if c == 1:
                 violations.append(Violation("sum-product differs from the sum over derivations and assignments (Z_spec)", case=case,
@@ -174,6 +223,10 @@ def replay(path):
     sr = [s for s in CONFIGS if repr(s) == c["semiring"]][0]
     if "via singleton_fgg" in c["method"]:
         out = run_singleton(spec, sr, c["method"].split()[0])
+    elif "build" in c:
+        o = c["build"]
+        hist = gen.spec_from_json(dict(c["spec"], weights=o["history"]))["weights"] if o.get("history") else None
+        out = run_impl(spec, sr, c["method"], ids=o["ids"], rng=random.Random(0), patterned=o["patterned"], staged=o["staged"], history=hist)
     else:
         out = run_impl(spec, sr, c["method"])
     code = run_coq(CF[sr.carrier()], [(grammar_wire(spec), weights_wire(spec, sr), sorted(out.items()))], tag="replay")[0]
